@@ -196,7 +196,40 @@ fn near_valid(rng: &mut Rng) -> (String, Option<&'static str>) {
         ("    x := -9223372036854775808\n", None),
         ("    x := 1e999\n", None),
         ("    x := \"multi\nline\"\n", None),
+        ("    cy := 1\n    cz := [cy]\n", None),
+        ("    q1 := list.get([1], 0)\n    q2 := [q1, q1]\n    q1 == q1\n", None),
     ];
+    // a variable unified with a composite containing itself (no occurs check), then used with an operator
+    let cyclic: &[&str] = &[
+        "zcyc :: fn x do\n    y := x\n    y = (y,)\n    y + y\nend\n",
+        "zcyc :: fn x do\n    y := x\n    y = (y, 1)\n    z := y < y\nend\n",
+        "zcyc :: fn x do\n    y := x\n    y = (y,)\n    z := y == y\nend\n",
+        "zcyc :: fn x do\n    y := x\n    y = [y]\n    print(y)\nend\n",
+        "zcyc :: fn x do\n    y := x\n    y = (1, (y, 2))\n    z := y * y\nend\n",
+        "zcyc :: fn x ->\n    y := x\n    y = (y,)\n    y - y\nend\nzuse :: fn do\n    zcyc(1)\nend\n",
+    ];
+    if rng.chance(1, 6) {
+        let c = cyclic[rng.below(cyclic.len())];
+        return (format!("{}start :: fn do\nend\n", c), Some("cyclic_type_through_assignment"));
+    }
+    // entry-point oddities: no `start` definition of its own, but the name is introduced otherwise
+    let entry: &[&str] = &[
+        "use list as start\n",
+        "from list use push as start\n",
+        "from list use (push as start, len)\n",
+        "use maybe as start\nx :: 1\n",
+        "start : fn -> void : external\n",
+        "start :: blob { a: int }\n",
+        "start :: enum A, B end\n",
+        "Start :: fn do end\n",
+        "x :: start\n",
+        "x :: fn do start() end\n",
+        "from main use start\n",
+        "use main as start\n",
+    ];
+    if rng.chance(1, 6) {
+        return (entry[rng.below(entry.len())].to_string(), None);
+    }
     let outers: &[&str] = &[
         "Outer :: blob { a: int }\nOuterE :: enum X, Y end\n",
         "Outer :: blob { a: int, a: str }\nOuterE :: enum X, X end\n",
@@ -213,6 +246,10 @@ fn near_valid(rng: &mut Rng) -> (String, Option<&'static str>) {
         "start := fn do end\n",
         "x :: y\ny :: x\n",
         "x :: x\n",
+        "u :: x\nx :: x + 1\n",
+        "u :: fn do print(x) end\nx :: x + 1\n",
+        "u :: x\nx :: y\ny :: x\n",
+        "x :: u\nu :: u\n",
         "f :: fn do g() end\ng :: fn do f() end\n",
         "x := 1\nx := 2\n",
         "break\n",
@@ -280,6 +317,11 @@ fn multi_file(rng: &mut Rng) -> (Files, String) {
     for _ in 0..rng.below(4) {
         main.push_str(imports[rng.below(imports.len())]);
     }
+    if rng.chance(1, 8) {
+        main.push_str(*rng.pick(&["use a as start\n", "from a use x as start\n", "from b use (x as start)\n", "use c/ as start\n"]));
+        files.insert("main.sy".to_string(), main);
+        return (files, desc);
+    }
     main.push_str(*rng.pick(&["start :: fn do end\n", "start :: fn do\n    print(a.x)\nend\n", "start :: fn do\n    print(x)\nend\n", "start :: fn do\n    print(c.x + d.x)\nend\n", ""]));
     files.insert("main.sy".to_string(), main);
     (files, desc)
@@ -323,6 +365,55 @@ fn judge(st: &mut Stats, case: u64, family: &str, files: &Files, main: &str, no_
             st.violation(Violation { signature: "total:fuel-exhausted".into(), hazard, case, detail: detail(J::s(format!("more than {} logical steps", FUEL))) });
         }
     }
+}
+
+/// Compile in a child process (default 8 MB main-thread stack) so that an abort - native stack
+/// overflow, allocation failure - is observed and attributed instead of killing the worker.
+fn judge_in_child(st: &mut Stats, case: u64, family: &str, files: &Files, no_std: bool, hazard: Option<String>) {
+    let root = verif_root().join(".target").join("runs");
+    let _ = std::fs::create_dir_all(&root);
+    let path = root.join(format!("c07-{}-{}.json", std::process::id(), case));
+    let j = J::obj().with("files", J::Obj(files.iter().map(|(k, v)| (k.clone(), J::s(v.clone()))).collect())).with("no_std", J::Bool(no_std));
+    if std::fs::write(&path, j.to_string()).is_err() {
+        return;
+    }
+    let Ok(exe) = std::env::current_exe() else { return };
+    let out = std::process::Command::new(exe).arg("c07child").arg(&path).output();
+    let _ = std::fs::remove_file(&path);
+    st.count("compilations_in_child_processes");
+    let Ok(out) = out else { return };
+    let text = String::from_utf8_lossy(&out.stdout).to_string();
+    let err = String::from_utf8_lossy(&out.stderr).to_string();
+    let normal = out.status.code() == Some(0) && text.contains("RESULT");
+    if !normal {
+        let what = if err.contains("stack overflow") { "stack-overflow" } else if err.contains("memory allocation") { "out-of-memory" } else { "abort" };
+        st.count("outcome:abort");
+        st.violation(Violation {
+            signature: format!("total:abort:{}", what),
+            hazard,
+            case,
+            detail: J::obj()
+                .with("family", J::s(family))
+                .with("files", J::Obj(files.iter().map(|(k, v)| (k.clone(), J::s(v.clone()))).collect()))
+                .with("status", J::s(format!("{:?}", out.status)))
+                .with("stderr_tail", J::s(err.chars().rev().take(300).collect::<String>().chars().rev().collect::<String>())),
+        });
+    }
+}
+
+pub fn child_main(path: &str) -> i32 {
+    let Ok(text) = std::fs::read_to_string(path) else { return 3 };
+    let Ok(j) = crate::json::parse(&text) else { return 3 };
+    let mut files = Files::new();
+    if let Some(m) = j.get("files").and_then(|x| x.as_obj()) {
+        for (k, v) in m {
+            files.insert(k.clone(), v.as_str().unwrap_or("").to_string());
+        }
+    }
+    let no_std = matches!(j.get("no_std"), Some(J::Bool(true)));
+    let r = sy::compile_files(&files, "main.sy", &CompileOpts { no_std, require: None, fuel: Some(FUEL) });
+    println!("RESULT {}", r.brief());
+    0
 }
 
 /// 10% of the cases are materialised on disk so that error rendering takes the file-reading path.
@@ -388,6 +479,15 @@ impl Check for C07 {
             }
         };
         let text_hash = hash64(format!("{:?}", files).as_bytes());
+        if family == "near-valid-program" {
+            // first in a child (an abort must not take the worker down), then in process for the details
+            let before = st.violations_total;
+            judge_in_child(st, index, family, &files, no_std, hazard.clone());
+            if st.violations_total > before {
+                st.nontrivial(text_hash);
+                return;
+            }
+        }
         judge(st, index, family, &files, "main.sy", no_std, hazard);
         st.nontrivial(text_hash);
         if index % 10 == 3 || index % 97 == 8 {
@@ -404,6 +504,11 @@ impl Check for C07 {
             Some(t) => t.to_string(),
             None => std::fs::read_to_string(&path).ok()?,
         };
+        if f.feature == "cyclic_type_through_assignment" {
+            let mut st = Stats::default();
+            judge_in_child(&mut st, 0, "witness", &sy::one_file(&text), false, None);
+            return st.violations.first().map(|v| v.signature.clone());
+        }
         let r = sy::compile_files(&sy::one_file(&text), "main.sy", &CompileOpts { no_std: false, require: None, fuel: Some(FUEL) });
         match r {
             Compiled::Panic { location, .. } => Some(format!("total:panic@{}", location)),
